@@ -109,6 +109,11 @@ fn main() {
             let plan = plan_or_die(&rf.property, rf.tier);
             std::process::exit(run::replay_case(&plan, &rf.engine, &rf.case, quiet));
         }
+        "api-inventory" => {
+            for l in probes::api_inventory() {
+                println!("{}", l);
+            }
+        }
         "fuzz-import" => {
             // tv fuzz-import --property P --job J <artifact>: turn a libFuzzer artifact into a replay file
             let prop = arg(&args, "--property").expect("--property");
